@@ -373,6 +373,18 @@ def main():
         failures.extend(wide["failures"])
         extra_runs.append({"search": "thorough scope", "ops": wide["n_ops"], "oracle_failures": len(wide["failures"]), "errors": wide["errors"]})
 
+    # Oracle classes marked `tie-hypothesis` validate an ASSUMPTION of a theorem on the real code (e.g. the accuracy
+    # of the f32 trigonometry that `sector_angular_partial` takes as a hypothesis), not a clause of the property text:
+    # their failure breaks the tie (the property is no longer shown to hold) but is not a failing input of the property.
+    hyp = [f for f in failures if "tie-hypothesis" in f["class"]]
+    if hyp:
+        failures = [f for f in failures if "tie-hypothesis" not in f["class"]]
+        seen_h = {}
+        for f in hyp:
+            seen_h.setdefault(f["class"], []).append(f)
+        for cls, fs in seen_h.items():
+            broken_theorems.append(f"{cls}: theorem hypothesis not validated on {len(fs)} op(s), e.g. op #{fs[0]['op_index']}: {fs[0].get('detail', '')[:200]}")
+
     # ---- 6 classify --------------------------------------------------------------------------
     known = []
     kf = os.path.join(VERIF, "known_findings.jsonl")
